@@ -41,6 +41,7 @@ PROPS["C02"] = {
             {"name": "nearmiss", "run": "^TestNearMisses$", "checks": 192000, "shards": 6},
             {"name": "arbitrary", "run": "^TestArbitraryStrings$", "checks": 96000, "shards": 3},
             {"name": "tagbuf", "run": "^TestTagBufferIndependence$", "checks": 48000, "shards": 3},
+            {"name": "parser", "run": "^TestLinesThroughParser$", "checks": 24000, "shards": 4},
         ],
         "thorough": [
             {"name": "corpus", "kind": "plain", "run": "^TestSeedCorpus$"},
@@ -48,6 +49,7 @@ PROPS["C02"] = {
             {"name": "nearmiss", "run": "^TestNearMisses$", "checks": 3200000, "shards": 6, "timeout": 1700},
             {"name": "arbitrary", "run": "^TestArbitraryStrings$", "checks": 1600000, "shards": 4, "timeout": 1700},
             {"name": "tagbuf", "run": "^TestTagBufferIndependence$", "checks": 1600000, "shards": 4, "timeout": 1700},
+            {"name": "parser", "run": "^TestLinesThroughParser$", "checks": 800000, "shards": 4, "timeout": 1700},
             {"name": "fuzz", "kind": "fuzz", "fuzz": "FuzzLexImplications", "time": "240s", "timeout": 600},
         ],
     },
@@ -259,13 +261,16 @@ PROPS["C12"] = {
 PROPS["C13"] = {
     "pkg": "c13", "level": "exploration",
     "jobs": {
-        "quick": [{"name": "pods", "run": "^TestPodHistories$", "checks": 4800, "shards": 16, "steps": 32}],
-        "thorough": [{"name": "pods", "run": "^TestPodHistories$", "checks": 128000, "shards": 16, "steps": 30, "timeout": 1700}],
+        "quick": [{"name": "pods", "run": "^TestPodHistories$", "checks": 4800, "shards": 12, "steps": 32},
+                  {"name": "relist", "run": "^TestPodHistories$", "checks": 400, "shards": 16, "steps": 24, "env": {"C13_RELIST": "1"}}],
+        "thorough": [{"name": "pods", "run": "^TestPodHistories$", "checks": 128000, "shards": 16, "steps": 30, "timeout": 1700},
+                     {"name": "relist", "run": "^TestPodHistories$", "checks": 12000, "shards": 16, "steps": 24, "timeout": 1700, "env": {"C13_RELIST": "1"}}],
     },
     "assumptions": [
         "lookups are issued only at quiescent points (after the sentinel barrier), which is what 'after any history has been observed' states; the window between the informer's index update and the provider's invalidation callback is not explored",
         "the barrier relies on client-go delivering handler notifications in event order and on absent results not being memoised by the provider",
         "no regex in the pool matches the empty string as a whole; distinct IPs among existing pods",
+        "a relist (the watch answers 'resource version too old', the informer lists again and finds pods gone) costs about a second of client-go's real-time back-off, so it is generated in its own job, once per history",
     ],
 }
 
@@ -276,13 +281,13 @@ PROPS["C16"] = {
             {"name": "enumeration", "kind": "plain", "run": "^TestHTTPFaultEnumeration$", "shards": 8},
             {"name": "random", "run": "^TestHTTPFaultsRandom$", "checks": 320, "shards": 4},
             {"name": "sender", "run": "^TestSenderFaults$", "checks": 96, "shards": 16},
-            {"name": "socket", "run": "^TestSocketBackends$", "checks": 64, "shards": 4},
+            {"name": "socket", "run": "^TestSocketBackends$", "checks": 960, "shards": 8},
         ],
         "thorough": [
             {"name": "enumeration", "kind": "plain", "run": "^TestHTTPFaultEnumeration$", "shards": 8, "timeout": 2400},
             {"name": "random", "run": "^TestHTTPFaultsRandom$", "checks": 32000, "shards": 4, "timeout": 1700},
             {"name": "sender", "run": "^TestSenderFaults$", "checks": 3200, "shards": 16, "timeout": 1700},
-            {"name": "socket", "run": "^TestSocketBackends$", "checks": 1600, "shards": 4, "timeout": 1700},
+            {"name": "socket", "run": "^TestSocketBackends$", "checks": 32000, "shards": 8, "timeout": 1700},
         ],
     },
     "assumptions": [
